@@ -120,6 +120,8 @@ pub struct AuthOp {
 pub enum Op {
     Reg(RegOp),
     Auth(AuthOp),
+    /// an authentication during which the store's update call fails with this status (reference store only)
+    AuthUpdateFault(AuthOp, u8),
 }
 
 #[derive(Clone, Debug, Serialize, Deserialize, PartialEq)]
@@ -141,9 +143,14 @@ pub trait StoreAccess: CredentialStore<PasskeyItem = Passkey> + Sync + Send {
         vec![]
     }
     fn clear_log(&self) {}
+    /// make the second fallible call (the counter update of an assertion) fail
+    fn set_update_fault(&self, _code: Option<u8>) {}
 }
 
 impl StoreAccess for RefStore {
+    fn set_update_fault(&self, code: Option<u8>) {
+        self.set_faults(code.map(|c| std::collections::BTreeMap::from([(1usize, c)])).unwrap_or_default());
+    }
     fn snapshot(&self) -> Vec<PkSnap> {
         self.creds().iter().map(snap).collect()
     }
@@ -208,6 +215,7 @@ pub struct Stats {
     pub auth_ok: u64,
     pub auth_not_found: u64,
     pub auth_unexpected_err: u64,
+    pub auth_faulted_err: u64,
     pub counted_assertions: u64,
     pub last_error: String,
 }
@@ -375,6 +383,7 @@ pub struct Runner<S: StoreAccess> {
     pub disc: Disc,
     pub stats: Stats,
     pub oracles: Oracles,
+    pub faulted: bool,
 }
 
 impl<S: StoreAccess> Runner<S> {
@@ -382,7 +391,7 @@ impl<S: StoreAccess> Runner<S> {
         let uv = ScriptedUv::new(UvScript::verified());
         let auth = cer::build_authenticator(store, uv.clone(), cfg);
         let client = Client::new_with_custom_tld_provider(auth, HProvider::new(ProviderKind::Default)).allows_insecure_localhost(true);
-        Runner { client, uv, model: vec![], seen_ids: HashSet::new(), kind, cfg: cfg.clone(), disc, stats: Stats::default(), oracles }
+        Runner { client, uv, model: vec![], seen_ids: HashSet::new(), kind, cfg: cfg.clone(), disc, stats: Stats::default(), oracles, faulted: false }
     }
 
     pub fn store_snapshot(&self) -> Vec<PkSnap> {
@@ -559,6 +568,11 @@ impl<S: StoreAccess> Runner<S> {
                     if self.oracles.c03 && after != before {
                         return Err("a failed authentication changed the store".into());
                     }
+                } else if self.faulted {
+                    self.stats.auth_faulted_err += 1;
+                    if self.oracles.c08 && after != before {
+                        return Err("the store rejected the counter update but its content changed".into());
+                    }
                 } else {
                     self.stats.auth_unexpected_err += 1;
                     self.stats.last_error = format!("authenticate: {e:?}");
@@ -631,6 +645,14 @@ pub fn run_history(h: &History, oracles: Oracles) -> Result<Stats, String> {
             match op {
                 Op::Reg(o) => r.register(o).map_err(|e| format!("op #{i} (register): {e}"))?,
                 Op::Auth(o) => r.authenticate(o).map_err(|e| format!("op #{i} (authenticate): {e}"))?,
+                Op::AuthUpdateFault(o, code) => {
+                    r.client.authenticator().store().set_update_fault(Some(*code));
+                    r.faulted = true;
+                    let res = r.authenticate(o);
+                    r.faulted = false;
+                    r.client.authenticator().store().set_update_fault(None);
+                    res.map_err(|e| format!("op #{i} (authenticate while the store rejects the counter update with 0x{code:02X}): {e}"))?
+                }
             }
         }
         Ok(r.stats)
